@@ -1,6 +1,6 @@
 //! C11 — Isolation between clients and channels; broadcast reaches exactly its targets.
 
-use crate::explore::{self, h128, DfsCfg, Violation, World};
+use crate::explore::{self, h128, Ctx, DfsCfg, RunOut, Scenario, Violation, World};
 use crate::json::J;
 use crate::link::{decode, guard, hash_conn, PktInfo};
 use crate::report::{Report, Tier};
@@ -90,6 +90,8 @@ pub struct NWorld {
     /// (observer, label, tick) log: observer = client index, or 1000 + client index for the server side
     log: Vec<(usize, u16, u32)>,
     flags: u64,
+    /// packets of the faulty link held back by the schedule: (to_server, bytes, due tick)
+    held: Vec<(bool, Vec<u8>, u32)>,
 }
 
 impl NWorld {
@@ -102,7 +104,123 @@ impl NWorld {
             tick: 0,
             log: vec![],
             flags: 0,
+            held: vec![],
         }
+    }
+
+    /// applies an action without running the per-state probes (used by the scripted M2 sessions)
+    fn step_quiet(&mut self, a: &Act) -> Result<(), Violation> {
+        self.apply(a)?;
+        while self.srv.get_event().is_some() {}
+        Ok(())
+    }
+
+    /// one tick in which every packet of client `faulty`'s link gets a fate from the schedule
+    fn tick_with_schedule(&mut self, ctx: &mut Ctx, faulty: usize, open: bool) -> Result<(), Violation> {
+        self.tick += 1;
+        let tick = self.tick;
+        let n = self.n();
+        let mut fate = |ctx: &mut Ctx, held: &mut Vec<(bool, Vec<u8>, u32)>, to_server: bool, p: Vec<u8>, now: &mut Vec<Vec<u8>>| {
+            let f = if open { PFATES[ctx.choose(PFATES.len())] } else { PFate::Ok };
+            if f != PFate::Ok {
+                ctx.note(|| format!("t{} link of client {}: {} packet ({} B) fate {:?}", tick, faulty, if to_server { "client->server" } else { "server->client" }, p.len(), f));
+            }
+            match f {
+                PFate::Ok => now.push(p),
+                PFate::Drop => {}
+                PFate::Dup => {
+                    now.push(p.clone());
+                    now.push(p);
+                }
+                PFate::Delay1 => held.push((to_server, p, tick + 1)),
+                PFate::Delay2 => held.push((to_server, p, tick + 2)),
+            }
+        };
+        // clients -> server
+        for i in 0..n {
+            if let Some(c) = self.peers[i].as_mut() {
+                let pk = guard("client update+flush", || {
+                    c.update(Duration::from_millis(DT));
+                    c.get_packets_to_send()
+                })?;
+                let mut now: Vec<Vec<u8>> = vec![];
+                if i == faulty {
+                    let mut rest = vec![];
+                    for (ts, p, due) in std::mem::take(&mut self.held) {
+                        if ts && due <= tick {
+                            now.push(p);
+                        } else {
+                            rest.push((ts, p, due));
+                        }
+                    }
+                    self.held = rest;
+                    for p in pk {
+                        fate(ctx, &mut self.held, true, p, &mut now);
+                    }
+                } else {
+                    now = pk;
+                }
+                let srv = &mut self.srv;
+                for p in now {
+                    guard("process_packet_from", || {
+                        let _ = srv.process_packet_from(&p, id_of(i));
+                    })?;
+                }
+            }
+        }
+        for i in 0..n {
+            for ch in 0..3u8 {
+                loop {
+                    let srv = &mut self.srv;
+                    let m = guard("receive_message", || srv.receive_message(id_of(i), ch))?;
+                    match m {
+                        Some(b) => self.obtained(None, i, ch, &b)?,
+                        None => break,
+                    }
+                }
+            }
+        }
+        let srv = &mut self.srv;
+        guard("server update", || srv.update(Duration::from_millis(DT)))?;
+        for i in 0..n {
+            let srv = &mut self.srv;
+            let pk = guard("get_packets_to_send", || srv.get_packets_to_send(id_of(i)).unwrap_or_default())?;
+            let mut now: Vec<Vec<u8>> = vec![];
+            if i == faulty {
+                let mut rest = vec![];
+                for (ts, p, due) in std::mem::take(&mut self.held) {
+                    if !ts && due <= tick {
+                        now.push(p);
+                    } else {
+                        rest.push((ts, p, due));
+                    }
+                }
+                self.held = rest;
+                for p in pk {
+                    fate(ctx, &mut self.held, false, p, &mut now);
+                }
+            } else {
+                now = pk;
+            }
+            if let Some(c) = self.peers[i].as_mut() {
+                for p in now {
+                    guard("process_packet", || c.process_packet(&p))?;
+                }
+            }
+        }
+        for i in 0..n {
+            for ch in 0..3u8 {
+                loop {
+                    let Some(c) = self.peers[i].as_mut() else { break };
+                    let m = guard("client receive_message", || c.receive_message(ch))?;
+                    match m {
+                        Some(b) => self.obtained(Some(i), i, ch, &b)?,
+                        None => break,
+                    }
+                }
+            }
+        }
+        Ok(())
     }
 
     fn n(&self) -> usize {
@@ -159,6 +277,10 @@ impl NWorld {
                     ));
                 }
                 if self.msgs[label as usize].got.contains(&(j, e)) {
+                    if m.ch == 0 {
+                        // an unreliable message may legitimately arrive again when the link duplicated its packet
+                        return Ok(());
+                    }
                     return Err(Violation::new("C11/obtained-twice", format!("client {} obtained message {} twice", j, label)));
                 }
                 self.msgs[label as usize].got.push((j, e));
@@ -173,6 +295,9 @@ impl NWorld {
                     ));
                 }
                 if self.msgs[label as usize].got.contains(&(1000 + via_id, 0)) {
+                    if m.ch == 0 {
+                        return Ok(());
+                    }
                     return Err(Violation::new("C11/obtained-twice", format!("server obtained message {} twice", label)));
                 }
                 self.msgs[label as usize].got.push((1000 + via_id, 0));
@@ -379,6 +504,22 @@ impl World for NWorld {
     }
 
     fn step(&mut self, a: &Act) -> Result<(), Violation> {
+        self.apply(a)?;
+        while self.srv.get_event().is_some() {}
+        self.probes()
+    }
+
+    fn fingerprint(&self) -> u128 {
+        self.fp()
+    }
+
+    fn flags(&self) -> u64 {
+        self.flags
+    }
+}
+
+impl NWorld {
+    fn apply(&mut self, a: &Act) -> Result<(), Violation> {
         match a {
             Act::Connect(i) => {
                 let srv = &mut self.srv;
@@ -441,11 +582,10 @@ impl World for NWorld {
                 self.flags |= 16;
             }
         }
-        while self.srv.get_event().is_some() {}
-        self.probes()
+        Ok(())
     }
 
-    fn fingerprint(&self) -> u128 {
+    fn fp(&self) -> u128 {
         let mut h = std::collections::hash_map::DefaultHasher::new();
         for i in 0..self.n() {
             match self.srv.verif_connection(id_of(i)) {
@@ -466,10 +606,147 @@ impl World for NWorld {
         self.epochs.hash(&mut h);
         h128(&h.finish())
     }
+}
 
-    fn flags(&self) -> u64 {
-        self.flags
+// ------------------------------------------------------------------------------------------
+// M2: per-packet fault schedules on ONE client's link, differential oracle on the OTHER clients
+// ------------------------------------------------------------------------------------------
+
+pub struct FaultyLinkScenario {
+    pub name: String,
+    pub n: usize,
+    pub faulty: usize,
+    pub horizon: u32,
+    pub tail: u32,
+    /// (observer, label, tick) log of the fault-free run, restricted to observers other than the faulty client
+    pub baseline: Vec<(usize, u16, u32)>,
+}
+
+#[derive(Clone, Copy, PartialEq, Eq, Debug)]
+enum PFate {
+    Ok,
+    Drop,
+    Dup,
+    Delay1,
+    Delay2,
+}
+const PFATES: [PFate; 5] = [PFate::Ok, PFate::Drop, PFate::Dup, PFate::Delay1, PFate::Delay2];
+
+impl FaultyLinkScenario {
+    fn script(w: &mut NWorld, tick: u32) -> Result<(), Violation> {
+        let n = w.n();
+        match tick {
+            0 => {
+                for i in 0..n {
+                    w.step_quiet(&Act::Connect(i))?;
+                }
+            }
+            1 => {
+                w.step_quiet(&Act::Broadcast(1))?;
+                for i in 0..n {
+                    w.step_quiet(&Act::Send(i, 1))?;
+                    w.step_quiet(&Act::ClientSend(i, 1))?;
+                }
+                w.step_quiet(&Act::Broadcast(0))?;
+            }
+            2 => {
+                for i in 0..n {
+                    w.step_quiet(&Act::Send(i, 0))?;
+                    w.step_quiet(&Act::ClientSend(i, 2))?;
+                    w.step_quiet(&Act::BroadcastExcept(i, 2))?;
+                }
+            }
+            3 => {
+                w.step_quiet(&Act::Broadcast(1))?;
+                for i in 0..n {
+                    w.step_quiet(&Act::Send(i, 1))?;
+                }
+            }
+            _ => {}
+        }
+        Ok(())
     }
+
+    fn execute(&self, ctx: &mut Ctx) -> (NWorld, Result<(), Violation>) {
+        let mut w = NWorld::new(self.n);
+        let r = (|| -> Result<(), Violation> {
+            for tick in 0..self.horizon + self.tail {
+                Self::script(&mut w, tick)?;
+                w.tick_with_schedule(ctx, self.faulty, tick < self.horizon)?;
+                ctx.transitions += 1;
+                ctx.state(crate::explore::h64(&w.fingerprint()));
+            }
+            Ok(())
+        })();
+        (w, r)
+    }
+
+    pub fn new(name: &str, n: usize, faulty: usize, horizon: u32, tail: u32) -> Self {
+        let mut s = FaultyLinkScenario { name: name.to_string(), n, faulty, horizon, tail, baseline: vec![] };
+        let mut ctx = Ctx::new(&[], false);
+        let (w, _) = s.execute(&mut ctx);
+        s.baseline = w.log.iter().cloned().filter(|(o, _, _)| *o != faulty && *o != 1000 + faulty).collect();
+        s
+    }
+}
+
+impl Scenario for FaultyLinkScenario {
+    fn name(&self) -> String {
+        self.name.clone()
+    }
+    fn run(&self, ctx: &mut Ctx) -> RunOut {
+        let (w, r) = self.execute(ctx);
+        let mut violation = r.err();
+        let others: Vec<(usize, u16, u32)> = w.log.iter().cloned().filter(|(o, _, _)| *o != self.faulty && *o != 1000 + self.faulty).collect();
+        if violation.is_none() && others != self.baseline {
+            violation = Some(Violation::new(
+                "C11/faults-on-one-link-change-other-clients-traffic",
+                format!(
+                    "faults applied only to client {}'s link: the other observers' (observer, label, tick) log is {:?}, without faults it is {:?}",
+                    self.faulty, others, self.baseline
+                ),
+            ));
+        }
+        if violation.is_none() {
+            // completeness for everybody after the tail
+            for (l, m) in w.msgs.iter().enumerate() {
+                if m.ch == 0 {
+                    continue;
+                }
+                if m.from_server {
+                    for &(j, e) in &m.recipients {
+                        if w.epochs[j] == e && w.healthy(j) && !m.got.contains(&(j, e)) {
+                            violation = Some(Violation::new(
+                                "C11/reliable-message-not-obtained-by-recipient",
+                                format!("message {} on channel {} for client {} not obtained after the fault-free tail", l, m.ch, j),
+                            ));
+                        }
+                    }
+                } else if w.healthy(m.sender) && !m.got.contains(&(1000 + m.sender, 0)) {
+                    violation = Some(Violation::new("C11/client-message-not-obtained-by-server", format!("message {} from client {}", l, m.sender)));
+                }
+            }
+            for i in 0..w.n() {
+                if !w.healthy(i) {
+                    violation = Some(Violation::new("C11/honest-client-disconnected", format!("client {} is no longer connected on both sides", i)));
+                }
+            }
+        }
+        if ctx.verbose {
+            for (o, l, t) in &w.log {
+                ctx.log.push(format!("t{} observer {} obtained message {}", t, o, l));
+            }
+        }
+        RunOut { violation, outcome: crate::explore::h64(&w.log) }
+    }
+}
+
+pub fn faulty_link_scenarios(tier: Tier) -> Vec<FaultyLinkScenario> {
+    let mut v = vec![FaultyLinkScenario::new("2 clients, faults on client 0's link", 2, 0, 5, 8), FaultyLinkScenario::new("3 clients, faults on client 1's link", 3, 1, 5, 8)];
+    if tier == Tier::Thorough {
+        v.push(FaultyLinkScenario::new("3 clients, faults on client 2's link", 3, 2, 6, 8));
+    }
+    v
 }
 
 pub fn run(tier: Tier) -> i32 {
@@ -487,10 +764,56 @@ pub fn run(tier: Tier) -> i32 {
         rep.vac("states_after_link_down_tick", (r.flags_seen & 16 != 0) as u64);
         rep.add_dfs(&format!("{}-clients", n), k, d, &r);
     }
+    if rep.machinery.is_none() {
+        rep.rule("M2: a scripted session (broadcasts, sends, broadcast_except, client sends on all three channel kinds over 4 ticks) with every schedule of <= d per-packet deviations (drop, duplicate, delay 1/2) on ONE client's link in both directions; differential oracle: the (observer, label, tick) log of every other observer equals the fault-free run's; recipient / at-most-once / attribution oracles on every obtained message; completeness after the tail");
+        let sc = faulty_link_scenarios(tier);
+        for (i, s) in sc.iter().enumerate() {
+            let cfg = crate::explore::ExploreCfg { max_dev: tier.pick(2, 3), wall_cap_s: tier.pick(100.0, 1500.0), ..Default::default() };
+            match explore::explore_schedules(s, 10 + i, &cfg, 0) {
+                Ok(r) => rep.add_explore(&format!("m2/{}", s.name), &r, &[]),
+                Err(e) => {
+                    rep.machinery = Some(e.0);
+                    break;
+                }
+            }
+        }
+    }
     rep.finish()
 }
 
 pub fn replay(j: &J) -> i32 {
+    if j.get("kind").and_then(|k| k.as_str()) == Some("schedule") {
+        let tier = match j.get("tier").and_then(|t| t.as_str()) {
+            Some("thorough") => Tier::Thorough,
+            _ => Tier::Quick,
+        };
+        let sc = faulty_link_scenarios(tier);
+        let idx = (j.get("scenario_index").and_then(|x| x.as_i()).unwrap_or(10) as usize).saturating_sub(10);
+        let Some(s) = sc.get(idx) else { return 2 };
+        let choices = crate::report::choices_of(j);
+        return match explore::replay(s, &choices) {
+            Err(e) => {
+                eprintln!("MACHINERY ERROR: {}", e.0);
+                2
+            }
+            Ok((log, v)) => {
+                println!("replay of '{}' with choices {:?}", s.name, choices);
+                for l in log {
+                    println!("  {}", l);
+                }
+                match v {
+                    Some(v) => {
+                        println!("RESULT: violation {} — {}", v.signature, v.message);
+                        1
+                    }
+                    None => {
+                        println!("RESULT: no violation");
+                        0
+                    }
+                }
+            }
+        };
+    }
     let acts: Vec<usize> = j
         .get("actions")
         .and_then(|a| a.as_arr())
